@@ -98,6 +98,10 @@ class OwnHooks(Hooks):
         k = const_trip_bound(fn, header)
         if k is not None and k <= 40:
             return k + 2
+        # a loop of a standard-library helper (swap_ranges, copy, fill over the in-object array): its trip count is the distance of
+        # two pointers into one array, decided as the interpretation goes
+        if not I.m.is_lib(fn) and fn.dem.startswith('std::') or re.match(r'^\w[\w:<>, \*&]* std::', fn.dem):
+            return 40
         return self.unroll
 
 
